@@ -224,7 +224,7 @@ func TestVerifC22(t *testing.T) {
 
 	maxLen, keys, hashes, windows := 5, 2, 16, 32
 	if r.Thorough() {
-		maxLen, keys, hashes, windows = 6, 3, 64, 64
+		maxLen, keys, hashes, windows = 6, 3, 24, 48
 	}
 	// every list over the four names up to maxLen, grouped by operator set
 	groups := map[int][]string{}
